@@ -44,13 +44,22 @@ def run(ctx):
 
     others = {id(k): [o for o in w.keys if o is not k] for k in w.keys}
 
-    def chain(k, long=False):
+    def chain(k, long=False, shared=None):
+        if shared:
+            return f'{k["cert"]}:{hexs(b"ocsp")}:nil,{shared}:nil:nil'
         # long: the leaf followed by further certificates (issuer position), so that authority indices are not 0, 1, 2, ...
         c = f'{k["cert"]}:{hexs(b"ocsp")}:nil'
         if long:
             c += ''.join(f',{o["cert"]}:nil:nil' for o in others[id(k)][:1 + (len(k["cert"]) % 2)])
         return c
 
+    r3 = ctx.go([f'setup.key p256 {hexs(b"third.example")} 9'])[0]
+    kC = None
+    if r3 and r3.startswith('ok '):
+        _, c3, k3 = r3.split(' ')
+        kC = dict(curve='p256', hosts=b'third.example', cert=c3, key=k3)
+        w.keys.append(kC); others[id(kC)] = [o for o in w.keys if o is not kC]
+        HOSTS[b'third.example'] = [b'https://third.example/', b'https://third.example/t']
     bundles = []
     for ver in ('b1', 'b2'):
         for _ in range(10 if not thorough else 150):
@@ -60,14 +69,25 @@ def run(ctx):
             bundles.append(bundle(ver, urls[0] if ver == 'b1' else None, None, None, exs))
     # signer sequences
     seqs = []
+    if kC:
+        # three signers, disjoint hosts, every chain = own leaf + the SAME second certificate (a shared intermediate)
+        shared = kA2['cert']
+        for ver in ('b1', 'b2'):
+            for _ in range(2 if not thorough else 20):
+                urls = [HOSTS[b'example.com'][0], HOSTS[b'other.example'][0], HOSTS[b'third.example'][0], HOSTS[b'third.example'][1]]
+                rng.shuffle(urls)
+                exs3 = [exch(u, 200, [(b'Content-Type', [b'text/plain'])], rbytes(rng, rng.choice([1, 17, 100]))) for u in urls]
+                b3 = bundle(ver, urls[0] if ver == 'b1' else None, None, None, exs3)
+                ks = [kA, kB, kC]; rng.shuffle(ks)
+                seqs.append(dict(b=b3, keys=ks, rs=16, dur=3600, long=[True, True, True], shared=shared))
     for b in bundles:
         r = rng.random()
         ks = [kA] if r < 0.4 else [kA, kB] if r < 0.7 else [kB, kA2] if r < 0.85 else [kA, kA2]      # last: overlapping coverage -> error
         seqs.append(dict(b=b, keys=ks, rs=rng.choice([1, 16, 4096]), dur=rng.choice([3600, 604800, 604801]), long=[rng.random() < 0.5 for _ in ks]))
     signed_all = []
-    for step in range(2):
+    for step in range(3):
         act = [s for s in seqs if step < len(s['keys']) and s['b']]
-        ops = [f'bsig.sign {s["b"]} {s["rs"]} {chain(s["keys"][step], s["long"][step])} {s["keys"][step]["key"]} {hexs(vurl)} {date} {s["dur"]}' for s in act]
+        ops = [f'bsig.sign {s["b"]} {s["rs"]} {chain(s["keys"][step], s["long"][step], s.get("shared"))} {s["keys"][step]["key"]} {hexs(vurl)} {date} {s["dur"]}' for s in act]
         res = ctx.go(ops)
         # cansign tables
         cq = []
@@ -84,7 +104,7 @@ def run(ctx):
             if r and r.startswith('ok '):
                 nb = r[3:]
                 sig = nb.split(' ')[3].split('/')[1].split('+')[-1].split(':')[1]
-            mops.append(f'bsig.signstep {s["b"]} {s["rs"]} {chain(s["keys"][step], s["long"][step])} {hexs(vurl)} {date} {date + s["dur"]} {cs} {sig}')
+            mops.append(f'bsig.signstep {s["b"]} {s["rs"]} {chain(s["keys"][step], s["long"][step], s.get("shared"))} {hexs(vurl)} {date} {date + s["dur"]} {cs} {sig}')
             gout.append(('ok ' + r[3:]) if r and r.startswith('ok ') else 'err')
         mres = ctx.model(mops)
         for op, g, m in zip(mops, gout, mres):
@@ -101,7 +121,7 @@ def run(ctx):
         for t in [(date - 1, 0), (date, 0), (date + dur // 2, 7), (date + dur, 0), (date + dur, 1)]:
             items.append((b, t))
     verify_stage(ctx, items if thorough else items[:400])
-    wr = ctx.go([f'bundle.write {b}' for b, dur in signed_all])
+    wr, _ = ctx.both([f'bundle.write {b}' for b, dur in signed_all])       # compared: the writer must serialise the signatures section as it is
     files = [(r.split(' ')[1], dur) for r, (b, dur) in zip(wr, signed_all) if r and r.startswith('ok ')]
     g, m = read_stage(ctx, [f for f, dur in files])
     back = [(x[3:], dur) for x, (f, dur) in zip(g, files) if x and x.startswith('ok ')]
@@ -129,6 +149,13 @@ def run(ctx):
             variants.append('~'.join([f[0], f[1], f[2] + ';' + hexs(b'X-Injected') + '=' + hexs(b'1'), f[3]]))
             variants.append('~'.join([f[0], f[1], f[2].replace(hexs(b'text/plain'), hexs(b'text/html')), f[3]]))
             variants.append('~'.join([hexs(unhex(f[0]) + b'2'), f[1], f[2], f[3]]))
+            # white space added around one header value (the header block hash must change)
+            hl = f[2].split(';')
+            for hi, hx in enumerate(hl):
+                nm_, val_ = hx.split('=')
+                first = unhex(val_.split('|')[0])
+                for pv in (b' ' + first, first + b' ', first + b'\t', b'\t' + first, first + b'\r\n'):
+                    variants.append('~'.join([f[0], f[1], ';'.join(hl[:hi] + [nm_ + '=' + '|'.join([hexs(pv)] + val_.split('|')[1:])] + hl[hi + 1:]), f[3]]))
             for nm in (b'Digest', b'Content-Encoding'):
                 kept = ';'.join(x for x in f[2].split(';') if not x.lower().startswith(hexs(nm).lower()))
                 variants.append('~'.join([f[0], f[1], kept or '.', f[3]]))
